@@ -5,9 +5,10 @@ func H_c13_filter() {
 	var fr frame
 	fr.Port = symByte() & 3
 	fr.DataKind = kind([...]byte{'D', 'C', 'd'}[symInt(0, 2)])
-	calls := [...]string{"AAA", "BBB", "CCC"}
-	fr.From = callsignFromString(calls[symInt(0, 2)])
-	fr.To = callsignFromString(calls[symInt(0, 2)])
+	// callsigns that are proper prefixes of one another (same call with an SSID) and an unrelated one
+	calls := [...]string{"AAA", "AAA-1", "AA", "BBB"}
+	fr.From = callsignFromString(calls[symInt(0, 3)])
+	fr.To = callsignFromString(calls[symInt(0, 3)])
 	var flt framesFilter
 	var p uint8
 	hasPort := symInt(0, 1) == 1
@@ -15,7 +16,7 @@ func H_c13_filter() {
 		p = symByte() & 3
 		flt.port = &p
 	}
-	ci, ti := symInt(-1, 2), symInt(-1, 2)
+	ci, ti := symInt(-1, 3), symInt(-1, 3)
 	if ci >= 0 {
 		flt.call = callsignFromString(calls[ci])
 	}
